@@ -130,6 +130,20 @@ def _roundtrip(names, with_custom, raw_param=False):
     return fn
 
 
+def _extreme(names):
+    """the ordinary two-cycle round trip; its float64 validation runs draw the numbers from doubles of extreme magnitude
+    (close to overflow, subnormal, 2**53 + 2)"""
+    from .c14 import EXTREMES
+
+    inner = _roundtrip(names, False)
+
+    def fn(P, g):
+        P.draw_from(EXTREMES)
+        return inner(P, g)
+
+    return fn
+
+
 def _interleaved_loads(P, g):
     """load A, load another file B that defines the same parameter id differently, then export A: A's own parameters
     (and offsets) must be written, and A must be unchanged by the second load"""
@@ -281,6 +295,8 @@ def cases(tier):
         Case("roundtrip-se3", _roundtrip(SE3_FILE, False), timeout=20, old_timeout=30, validate=v, feas_timeout_ms=1500, val_tol=1e-9, shards=4),
         Case("roundtrip-se3-custom", _roundtrip(SE3_FILE, True), timeout=20, old_timeout=30, validate=v, feas_timeout_ms=1500, val_tol=1e-9, shards=4),
         Case("roundtrip-se3-rawparam", _roundtrip(SE3_FILE, False, raw_param=True), timeout=20, old_timeout=30, validate=v, feas_timeout_ms=1500, val_tol=1e-9, shards=4),
+        Case("extreme-magnitudes-se2", _extreme(SE2_FILE), timeout=20, old_timeout=30, validate=4, feas_timeout_ms=1500, val_tol=1e-9, shadow=False),
+        Case("extreme-magnitudes-se3", _extreme(SE3_FILE), timeout=20, old_timeout=30, validate=4, feas_timeout_ms=1500, val_tol=1e-9, shadow=False, shards=4),
         Case("edited-after-load", _edited_after_load, timeout=20, old_timeout=30, validate=v, feas_timeout_ms=1500, val_tol=1e-9, shards=2),
         Case("interleaved-loads", _interleaved_loads, timeout=20, old_timeout=30, validate=v, feas_timeout_ms=1500, val_tol=1e-9, shards=2),
         Case("programmatic-se2", _programmatic("SE2"), timeout=20, old_timeout=30, validate=v, feas_timeout_ms=1500, val_tol=1e-9),
